@@ -141,6 +141,24 @@ class Concretiser:
             return self.obj(v.arg(0).as_long(), ty)
         raise NotConcretisable("value %s" % v)
 
+    def py_of(self, x):
+        """a python-level executor value (display of known shape with symbolic leaves) as the real Python object"""
+        from .values import VDict, VSet, VTuple, VList, SV
+
+        if isinstance(x, SV):
+            return self.value(x.t, x.ty)
+        if x is None or isinstance(x, (bool, int, float, str)):
+            return x
+        if isinstance(x, VDict) and getattr(x, "sym", None) is None:
+            return {self.py_of(k): self.py_of(v) for k, v in x.items.items()}
+        if isinstance(x, VSet):
+            return {self.py_of(k) for k in x.items}
+        if isinstance(x, VTuple):
+            return tuple(self.py_of(k) for k in x.items)
+        if isinstance(x, VList):
+            return [self.py_of(k) for k in x.items]
+        raise NotConcretisable("interned engine object %r" % (x,))
+
     def exception(self, oid):
         """an exception instance whose class realises the model's subclass facts"""
         from .engine import isa as isa_fn
@@ -197,7 +215,9 @@ class Concretiser:
         if oid in self.objs:
             return self.objs[oid]
         if oid in self.E.interned:
-            raise NotConcretisable("interned engine object %r" % (self.E.interned[oid],))
+            o = self.py_of(self.E.interned[oid])
+            self.objs[oid] = o
+            return o
         if isinstance(ty, TObj):
             cls = ty.cls
             real = getattr(importlib.import_module(cls.module.name), cls.name)
@@ -572,7 +592,7 @@ def _describe(v, depth=0):
 def snapshot_objects(conc):
     snap = {}
     for oid, o in conc.objs.items():
-        ty = conc.types[oid]
+        ty = conc.types.get(oid)
         if isinstance(ty, TAbs) and getattr(ty, "observe", None) is not None:
             snap[oid] = dict(ty.observe(o))
         elif isinstance(ty, (TObj, TAbs)):
